@@ -168,6 +168,20 @@ CLAIMED["C12"] = dict(
     technique="jaxpr symbolic execution + polynomial hypotheses + z3 QF_LRA (XL certificates); uninterpreted log; float64 replay",
     design="§4 C12")
 
+CLAIMED["C19"] = dict(
+    text="Bounded symbolic model checking of the real Gauss-Newton routine. (P) The real loop body is applied once -- through "
+         "the routine's own while_loop argument -- to a loop state with an ARBITRARY iterate x, arbitrary mean and factor "
+         "(also rank-deficient), for affine and affine+bilinear constraints with symbolic coefficients (D<=3 variables, k<=2 "
+         "rows): the new iterate equals m - Sigma J^T (J Sigma J^T)^-1 (f(x) + J(m-x)) (hence lies in m + range(Sigma J^T), is "
+         "the Gaussian conditional mean and feasible for affine constraints), reported residual/increment/counter are truthful; "
+         "the MAP Taylor point on an arbitrary DenseNormal equals the conditional mean; residual linearisation at the MAP point "
+         "reproduces an affine residual exactly (z3 QF_LRA on linearised obligations, lstsq as a contract). (S) The whole routine "
+         "with its real while loop (maxiter 1..3, unrolled, unwinding condition discharged) over z3 terms with products, "
+         "quotients and norms as uninterpreted functions: 0<=iters<=maxiter, early stop implies feasible-to-tolerance or "
+         "stagnated, feasible start returns the start, reported residual is the constraint at the returned point.",
+    technique="jaxpr symbolic execution + polynomial hypotheses + z3 QF_LRA (XL certificates); z3 QF_UFLRA bounded unrolling of the loop; float64 replay",
+    design="§4 C19")
+
 NOT_APPLICABLE = {
     "C01": "Global error vs the true (transcendental) ODE solution and observed convergence rates in floating point "
            "cannot be expressed as a bounded real-arithmetic query over the code; its mechanisms are decided under C02, C06, C07, C09.",
